@@ -47,7 +47,9 @@ pub struct EGen {
 pub fn egen() -> impl Strategy<Value = EGen> {
     // timestamps: mostly T0 + {0..7} (many ties and late older arrivals), sometimes from the wide table (`ts_of`)
     let t = prop_oneof![6 => 0u8..8, 1 => 8u8..(8 + WIDE_TS.len() as u8)];
-    (any::<u16>(), any::<u16>(), t, 0u8..4).prop_map(|(a, k, t, c)| EGen { a, k, t, c })
+    // contents: deletion marker / three small blobs, sometimes a record with a wide declared length (`common::WIDE_LENS`)
+    let c = prop_oneof![12 => 0u8..4, 1 => 4u8..12];
+    (any::<u16>(), any::<u16>(), t, c).prop_map(|(a, k, t, c)| EGen { a, k, t, c })
 }
 
 /// Timestamps far from `T0`, on both sides of byte boundaries of the big- and little-endian encodings, at 0 and at the
